@@ -184,6 +184,8 @@ def run(ctx):
     # G: exhaustive over the quick profile
     cases = runner.sharded_tlc(ctx, "GenScen", CFG.format(profile="c04q", shard="@SHARD@", nshards="@NSHARDS@"),
                                16, "GenScen_c04q", timeout=3000)
+    cases += runner.sharded_tlc(ctx, "GenScen", CFG.format(profile="c04h", shard="@SHARD@", nshards="@NSHARDS@"),
+                                16, "GenScen_c04h", timeout=3000)
     if not q:
         cases += runner.sharded_tlc(ctx, "GenScen", CFG.format(profile="c04t", shard="@SHARD@", nshards="@NSHARDS@"),
                                     16, "GenScen_c04t", timeout=3000, simulate="num=4000", depth=30, seed=ctx.seed + 7)
